@@ -50,7 +50,7 @@ class Alias:
     """
 
     ATTR_PARSER = re.compile(
-        r"(?:(?<!^)\.)?(?P<lookup>(?<!\.)\[\"(?:[^\"\\]|\\.)*\"\](?!\.)|(?<!\.)\['(?:[^'\\](?!\.)|\\.)*'\]|\w+)"
+        r"(?:(?<!^)\.)?(?P<lookup>(?<!\.)\[\"(?:[^\"\\]|\\.)*\"\]|(?<!\.)\['(?:[^'\\]|\\.)*'\]|\w+)"
     )
 
     def __init__(
